@@ -17,7 +17,8 @@ def file_bytes(f):
     body = b"".join(line_bytes(l) + b"\n" for l in f["lines"])
     k = f["kind"]
     if k == "ok":
-        return MAGIC + body
+        m = f.get("magic")
+        return (MAGIC if m is None else b"<" + bytes(m) + b"-0.8.1>\n") + body
     if k == "badmagic":
         return b"<notlibast-1.0>\n" + body
     if k == "empty":
@@ -32,7 +33,7 @@ def blist(b):
 def behaviour_script(sid, beh):
     """beh = one JSON object printed by MC_ConfParse!ObsEmit.  Returns the harness script text."""
     inp, post = beh["input"], beh["post"]
-    out = ["S %d" % sid, "init = T -"]
+    out = ["S %d" % sid, "prog %s = T -" % blist(inp["cfg"]["prog"]), "init = T -"]
     for f in inp["files"]:
         data = file_bytes(f)
         if data is not None:
